@@ -590,6 +590,10 @@ func runC15(p *Program, r *Report) {
 				if len(pa.Calls("Conn.writeControl")) > 0 || len(pa.Calls("Conn.writeClose")) > 0 {
 					return false, "a pong triggers a write"
 				}
+				nm := len(pa.Calls("mask"))
+				if masked, known := pa.Decided("param:h.masked"); known && (masked && nm != 1 || !masked && nm != 0) {
+					return false, fmt.Sprintf("pong payload masked %d times (masked=%v): the lookup key would not be the payload sent", nm, masked)
+				}
 				li := eventIndex(pa, 0, func(e *Event) bool { return isCall(e, "(*sync.Mutex).Lock") && argKey(e, 0) == "&Conn.activePingsMu" })
 				ui := eventIndex(pa, 0, func(e *Event) bool { return isCall(e, "(*sync.Mutex).Unlock") && argKey(e, 0) == "&Conn.activePingsMu" })
 				if li < 0 || ui < li {
